@@ -1675,6 +1675,13 @@ pub fn main(opts: &Opts) {
                 corpus.push(Case { ctrl_links: 1, data_links: 1, ops, interleave: vec![], repeat_tag: false, listener_window: 2048, listener_credit: Some(credit) });
             }
         }
+        // the controller's link is closed without a discharge: the same, by another road
+        let mut ops = vec![Op::Declare { ctrl: 0 }];
+        for _ in 0..4 {
+            ops.push(Op::Post { link: 0, txn: TxnRef::Slot(0), frames: 1, settled: false, state_on_all: true, abort_first: false });
+        }
+        ops.push(Op::CtrlGone { ctrl: 0, closed: true });
+        corpus.push(Case { ctrl_links: 1, data_links: 1, ops, interleave: vec![], repeat_tag: false, listener_window: 2048, listener_credit: Some(4) });
     }
     let mut route_lines: Vec<String> = vec![];
     let mut route_want: Vec<Vec<char>> = vec![];
